@@ -33,7 +33,8 @@ CONSTANTS Seed, OutFile,
           NMulPts, NMulScalars,    \* family mul: how many special points, how many random scalars per point (besides the structured ones)
           MulStructured,           \* TRUE: family mul uses every structured scalar on every point; FALSE: only on G-like points
           NAddPts,                 \* family add: size parameter of the point set
-          NCodecPts, RandLens      \* family codec: points whose encodings are mutated; lengths of random strings
+          NCodecPts, RandLens,     \* family codec: points whose encodings are mutated; lengths of random strings
+          CheckModN                \* TRUE: every multiplication is also computed with the scalar reduced modulo n (doubles the cost)
 S  == INSTANCE SM2
 BN == INSTANCE BigNat
 By == INSTANCE Bytes
@@ -100,7 +101,7 @@ Structured ==
   \cup {D("lenz", l, 0) : l \in Lens} \cup {D("lenr", l, 0) : l \in Lens}
   \cup {D("booth6", p, v) : p \in BoothPos6, v \in BoothDig6}
   \cup {D("booth5", p, v) : p \in BoothPos5, v \in BoothDig5}
-  \cup UNION {{D("ones", a, b), D("zeros", a, b)} : a \in RunEdges, b \in {e \in RunEdges : e > a}} \ {D("x", 0, 0)}
+  \cup UNION {UNION {{D("ones", a, b), D("zeros", a, b)} : b \in {e \in RunEdges : e > a}} : a \in RunEdges}
   \cup {D("limb", m, f) : m \in 1..15, f \in 0..2}
   \cup {D("nrel", j, s) : j \in 0..3, s \in 0..1}
 RandScalars(n) == {D("rnd", i, 0) : i \in 1..n}
@@ -225,15 +226,18 @@ Step(ev) == /\ hist' = Append(hist, ev)
             /\ UNCHANGED <<fam, shard>>
             /\ Em!Line(OutFile, ToJson([fam |-> "sm2ec", steps |-> hist']))
 
+ModNOk(k, base, q) == IF CheckModN THEN Assert(q = S!Ec!Mul(BN!Mod(k, N), base), <<"[k]R # [k mod n]R", k, base>>) ELSE TRUE
 DoBaseMult(d) ==
   LET k == Sc(d)
       q == S!Ec!Mul(k, G)
   IN /\ r1' = q /\ UNCHANGED r2
+     /\ ModNOk(k, G, q)
      /\ Step([op |-> "basemult", k |-> HX(k), cls |-> d[1], priv |-> PrivClass(k), exp |-> Enc(q)])
 DoMult(d) ==
   LET k == Sc(d)
       q == S!Ec!Mul(k, r1)
   IN /\ r1' = q /\ UNCHANGED r2
+     /\ ModNOk(k, r1, q)
      /\ Step([op |-> "mult", k |-> HX(k), cls |-> d[1], priv |-> PrivClass(k), exp |-> Enc(q)])
 DoCombined(tag, a, b) ==
   LET q == S!Ec!Combined(a, b, r1)
@@ -296,7 +300,7 @@ Next ==
   \/ fam = "mul" /\ nops = 0 /\ \E d \in MulScalarsHere : ShardOf(d) = shard /\ DoMult(d)
   \/ fam = "mul" /\ nops = 0 /\ shard = 0 /\ IsSmallMul(r1) /\ \E c \in CombCases : DoCombined(c[1], c[2], c[3])
   \/ fam = "mul" /\ nops = 0 /\ shard = 0 /\ ~IsSmallMul(r1) /\ \E i \in 1..3 : DoCombined("rand", Rnd(4400 + i, 32), Rnd(4500 + i, 32))
-  \/ fam = "add" /\ nops < 2 /\ \E i \in 1..2 : \E j \in 1..2 : (nops = 0 \/ i # j) /\ DoAdd(i, j)
+  \/ fam = "add" /\ nops < 2 /\ \E i \in 1..2 : \E j \in 1..2 : (IF nops = 0 THEN TRUE ELSE i # j) /\ DoAdd(i, j)
   \/ fam = "add" /\ nops < 2 /\ DoDouble(1)
   \/ fam = "codec" /\ nops = 0 /\ r1 # Inf /\ \E m \in Mutations(r1) : DoDecode(m)
   \/ fam = "codec" /\ nops = 0 /\ r1 = Inf /\ \E m \in FixedStrings \cup RandStrings : DoDecode(m)
@@ -312,6 +316,5 @@ Spec == Init /\ [][Next]_vars
 RegsOnCurve == S!Ec!IsPoint(r1) /\ S!Ec!IsPoint(r2)
 (* encoding then decoding is the identity on whatever the registers hold *)
 CodecIdentity == \A f \in {"u", "c"} : S!Ec!Decode(S!Ec!Encode(r1, f)) = [ok |-> TRUE, pt |-> r1]
-(* scalar multiplication only depends on the scalar modulo n (checked on the last scalar used, one extra Mul per state: small instances) *)
 TypeOK == nops \in 0..2 /\ fam \in {"base", "mul", "add", "codec", "ord"}
 =============================================================================
